@@ -6,8 +6,10 @@
    triangle of unit vectors with positive pairwise dot products and positive orientation, any planar
    triangle and any point strictly inside the spherical triangle, polyhedral_inverse undoes
    polyhedral_forward EXACTLY whenever the code's numerical short-cuts do not fire (main branch).
-   STILL NOT PROVED (named premise ProjInverse in the design): the converse direction (forward after
-   inverse), that the planar triangle is mapped ONTO the spherical one, the short-cut branches, the
+   Also proved (C15_polyhedral_converse_main_branch ...): the converse, forward after inverse, with the
+   constructed point strictly inside the spherical triangle; injectivity of both maps; the forward image is
+   strictly inside the planar triangle.  On the main branch the map is thus a bijection between the open triangles.
+   STILL NOT PROVED (named premise ProjInverse in the design): the short-cut branches, the
    instantiation to the 10 + 10 face triangles of the twelve faces (dodec_inverse (dodec_forward x) = x),
    and that the image of a face is its pentagon.  Also not proved: the 1e-12 / 1e-11 round-trip tolerances under f64 arithmetic.
    These gaps are covered only by certified interval samples and search, not by theorems.
@@ -386,6 +388,67 @@ Theorem C15_polyhedral_roundtrip_instance :
              polyhedral_inverse RInst fp ex_ft (ex_a, ex_b, ex_c) = Some ex_v.
 Proof. exact polyhedral_roundtrip_instance. Qed.
 Print Assumptions C15_polyhedral_roundtrip_instance.
+
+(* ---- The converse: forward after inverse is the identity on the main branch, so that on the main branch the IVEA map
+   is a bijection between the open spherical triangle and the open planar triangle (Geo/PolyhedralRoundTripConverse.v).
+   inv_alpha = (w / (1 - u)) * area(abc) is the excess the inverse aims for; inv_P is the point of the arc bc the
+   inverse constructs for it; inv_k a P = sin(angle(a,P)/2); thr = 1 - 1e-14. ---- *)
+From A5 Require Import Geo.PolyhedralRoundTripConverse.
+
+Theorem C15_polyhedral_converse_main_branch :
+  forall (a b c : vecR) (fp : ptR) (ft : triR) (u v w : R),
+  tri_det ft <> 0 -> face_to_barycentric RInst fp ft = (u, v, w) ->
+  unitv a -> unitv b -> unitv c ->
+  0 < vdot RInst a b -> 0 < vdot RInst b c -> 0 < vdot RInst c a -> 0 < triple_product RInst a b c ->
+  0 < u <= thr -> 0 < v <= thr -> 0 < w <= thr ->
+  let h := 1 - u in let al := inv_alpha a b c u w in let P := inv_P a b c al in
+  1 / 100000000 <= Rabs (half_excess_sine a b c) ->
+  1 / 1000 <= h * inv_k a P ->
+  1 / 100000000 <= Rabs (half_excess_sine a P c) ->
+  1 / 100000000 <= Rabs (half_excess_sine a b P) ->
+  exists x, polyhedral_inverse RInst fp ft (a, b, c) = Some x /\
+            unitv x /\ 0 < triple_product RInst a b x /\ 0 < triple_product RInst b c x /\
+            0 < triple_product RInst c a x /\
+            polyhedral_forward RInst x (a, b, c) ft = Some fp.
+Proof. exact polyhedral_converse_main_branch. Qed.
+Print Assumptions C15_polyhedral_converse_main_branch.
+
+(* injectivity of both maps on the main branch (sph_tri, fwd_main, inv_main bundle the hypotheses of the two round-trip
+   theorems) and the image of the forward map: strictly inside the planar triangle *)
+Theorem C15_forward_injective_main_branch : forall (a b c v1 v2 : vecR) (ft : triR),
+  tri_det ft <> 0 -> sph_tri a b c -> fwd_main a b c v1 -> fwd_main a b c v2 ->
+  polyhedral_forward RInst v1 (a, b, c) ft = polyhedral_forward RInst v2 (a, b, c) ft -> v1 = v2.
+Proof. exact forward_injective_main_branch. Qed.
+Print Assumptions C15_forward_injective_main_branch.
+
+Theorem C15_inverse_injective_main_branch : forall (a b c : vecR) (ft : triR) (fp1 fp2 : ptR),
+  tri_det ft <> 0 -> sph_tri a b c -> inv_main a b c ft fp1 -> inv_main a b c ft fp2 ->
+  polyhedral_inverse RInst fp1 ft (a, b, c) = polyhedral_inverse RInst fp2 ft (a, b, c) -> fp1 = fp2.
+Proof. exact inverse_injective_main_branch. Qed.
+Print Assumptions C15_inverse_injective_main_branch.
+
+Theorem C15_forward_image_interior : forall (a b c v : vecR) (ft : triR), tri_det ft <> 0 ->
+  unitv a -> unitv b -> unitv c -> unitv v ->
+  0 < vdot RInst a b -> 0 < vdot RInst b c -> 0 < vdot RInst c a ->
+  0 < triple_product RInst a b c -> 0 < triple_product RInst a b v ->
+  0 < triple_product RInst b c v -> 0 < triple_product RInst c a v -> vdot RInst a v < 1 ->
+  1/100000000 <= Rabs (half_excess_sine a b c) ->
+  1/100000000 <= Rabs (half_excess_sine a (isect a b c v) c) ->
+  1/100000000 <= Rabs (half_excess_sine a b (isect a b c v)) ->
+  exists fp bu bv bw, polyhedral_forward RInst v (a, b, c) ft = Some fp /\
+    face_to_barycentric RInst fp ft = (bu, bv, bw) /\ bu + bv + bw = 1 /\
+    0 < bu < 1 /\ 0 < bv < 1 /\ 0 < bw < 1 /\ bu = 1 - hR a b c v /\ 0 < hR a b c v < 1.
+Proof. exact forward_image_interior. Qed.
+Print Assumptions C15_forward_image_interior.
+
+(* satisfiable: the planar point with barycentric coordinates (1/2, 1/5, 3/10) of the example triangle *)
+Theorem C15_polyhedral_converse_instance :
+  exists x, polyhedral_inverse RInst ex2_fp ex_ft (ex_a, ex_b, ex_c) = Some x /\
+            unitv x /\ 0 < triple_product RInst ex_a ex_b x /\ 0 < triple_product RInst ex_b ex_c x /\
+            0 < triple_product RInst ex_c ex_a x /\
+            polyhedral_forward RInst x (ex_a, ex_b, ex_c) ex_ft = Some ex2_fp.
+Proof. exact polyhedral_converse_instance. Qed.
+Print Assumptions C15_polyhedral_converse_instance.
 
 (* ---- Interval model soundness: the executable interval instance (used by the correspondence check) encloses the
    ideal-real instance about which the theorems of this file speak.  [encl i x] = the real x lies in the interval i;
